@@ -9,7 +9,9 @@ modes
            writes legacy databases with the real PeeweeStorage at its DEFAULT path under the
            case's own XDG_DATA_HOME (the migration trigger keys on the default names), one
            store after the other, and returns per store the concrete ops (handles resolved to
-           ids), the error class of every op and a dump through the API.
+           ids), the error class of every op and a dump through the API.  A store may carry
+           "raw": [step ..] (round 5): after the dump the finished file is rewritten with plain
+           sqlite3 into another representation of the same content (harness.c14_gen.apply_raw).
   migrate  {xdg, testing, custom: null | file name}
            constructs the real SqliteStorage(testing) (default path unless custom) -- this is
            the call under test -- and dumps the new store through the API and table by table.
